@@ -42,7 +42,7 @@ PLAN = {
     "quick": dict(mc=[("MC_Informers_quick.cfg", None, 6)],
                   beh=[("Beh_Informers_q.cfg", 10000), ("Beh_Informers_q6.cfg", 2500)], race=0),
     "thorough": dict(mc=[("MC_Informers_full.cfg", None, 10), ("MC_Informers_quick.cfg", None, 4)],
-                     beh=[("Beh_Informers_t.cfg", 0), ("Beh_Informers_t7.cfg", 20000)], race=20000),
+                     beh=[("Beh_Informers_q.cfg", 0), ("Beh_Informers_t.cfg", 90000), ("Beh_Informers_t7.cfg", 20000)], race=20000),
 }
 
 
